@@ -174,7 +174,14 @@ class G:
 
     def c_accent(self):
         name, letter = self.rng.choice(VALID_ACCENTS)
-        return {'t': 'accent', 'name': name, 'letter': letter, 'braced': self.rng.random() < 0.5}
+        n = {'t': 'accent', 'name': name, 'letter': letter, 'braced': self.rng.random() < 0.5}
+        if n['braced'] and self.rng.random() < 0.06:
+            # the accented letter inside a language switch (a language token is the first thing of the argument)
+            n['letter'] = '\\foreignlanguage{german}{' + n['letter'] + '}'
+        elif n['braced'] and self.p('accent_rest', False) and self.rng.random() < 0.35:
+            # more than the accented letter inside the braces
+            n['rest'] = self.rng.choice(['--xyz', '{bc}d', '\\,koda', '% c\n fgh', 'xy', ' z', '\\zzz{k}m', "''n"])
+        return n
 
     def math_body(self, n=None):
         rng = self.rng
@@ -332,6 +339,10 @@ class G:
             else:
                 body.append(self.word())
         m = {'name': name, 'nargs': nargs, 'opt': None, 'body': body, 'cmd': '\\def'}
+        if nargs and rng.random() < 0.3:
+            # delimited parameters: \def\pair(#1,#2){...}, used as \pair({a},{b})
+            m['delims'] = [rng.choice(['', '(', '[', '/']) if k == 0 else rng.choice([',', '/', ':', ';', ')', '|'])
+                           for k in range(nargs + 1)]
         self.macros.append(m)
         return {'t': 'newcommand', 'm': m}
 
@@ -464,7 +475,7 @@ def r_symbol(n, r):
     r.emit(n['name'] + n['term'])
 def r_accent(n, r):
     if n['braced']:
-        r.emit(n['name'] + '{' + n['letter'] + '}')
+        r.emit(n['name'] + '{' + n['letter'] + n.get('rest', '') + '}')
     else:
         r.emit(n['name'] + (' ' if n['name'][-1].isalpha() else '') + n['letter'])
 def r_imath(n, r):
@@ -548,7 +559,8 @@ def r_param(n, r):
 def r_newcommand(n, r):
     m = n['m']
     if m['cmd'] == '\\def':
-        r.emit('\\def' + m['name'] + ''.join('#%d' % (k + 1) for k in range(m['nargs'])) + '{')
+        dl = m.get('delims') or [''] * (m['nargs'] + 1)
+        r.emit('\\def' + m['name'] + dl[0] + ''.join('#%d' % (k + 1) + dl[k + 1] for k in range(m['nargs'])) + '{')
     else:
         r.emit(m['cmd'] + '{' + m['name'] + '}')
         if m['nargs']:
@@ -570,6 +582,12 @@ def r_call(n, r):
         if n['sp'] != 'bare':
             r.emit(n['sp'] if n['sp'] else '{}')
     n0 = r.n
+    if m.get('delims'):
+        r.emit(m['delims'][0])
+        for k, a in enumerate(n['args']):
+            r.emit('{'); render(a, r); r.emit('}' + m['delims'][k + 1])
+        cs[2] = r.n
+        return
     for k, a in enumerate(n['args']):
         if k == 0 and m['opt'] is not None:
             if a is not None:
